@@ -123,6 +123,10 @@ def one(src, budget=None):
 
 
 def drive(task):
+    if task["kind"] == "sched_replay":
+        from .. import schedule_replay
+        yield from schedule_replay.drive_file(task["path"], task["lo"], task["hi"], task.get("stride", 1))
+        return
     budget = {v: MAX_TIMEOUTS for v in VARIANTS}
     budget["skipped"] = 0
     k = task["kind"]
@@ -146,6 +150,10 @@ def drive(task):
 
 
 def redrive(src):
+    if src["kind"] == "gen_line":
+        from .. import schedule_replay
+        yield from schedule_replay.replay_line(src["line"])
+        return
     yield from one(src)
 
 
@@ -162,11 +170,20 @@ RULE = ("all ordered pairs of DFA(2,{a,b}) (4096) x two variants x both argument
 def nontrivial(e):
     if e["op"] == "iso_trace":
         return len(e["picks"]) >= 2
+    if e["op"] == "sched_replay":
+        return True
     return len(e["d1"]["Q"]) == len(e["d2"]["Q"])
 
 
 def check(tier, seed):
-    return base.standard_check(PID, tier, seed, tasks(tier, seed), MODELS[tier], RULE, nontrivial, matchers=MATCHERS,
+    from .. import schedule_replay
+    info = {}
+    ts = tasks(tier, seed) + schedule_replay.gen_tasks(PID, "iso", tier, info, quick_stride=1)
+
+    def extra(res, done):
+        res.notes["model_schedules_forced_onto_impl"] = info
+
+    return base.standard_check(PID, tier, seed, ts, MODELS[tier], RULE, nontrivial, matchers=MATCHERS, extra=extra,
                                assumptions=["<= 7 states", "a call that uses more than %.0f s of CPU time is reported as "
                                             "non-terminating (such calls return in < 1 ms when they terminate)" % LIMIT])
 
